@@ -2796,15 +2796,14 @@ void mmd_engine_update_metavalue_for_key(mmd_engine * e, const char * key, const
 	for (int i = 0; i < e->metadata_stack->size; ++i) {
 		m = stack_peek_index(e->metadata_stack, i);
 
-		if (strcmp(clean, m->key) == 0) {
-			// We have a match
-			start = m->start;
-		} else if (start != -1) {
-			// We have already found a match
-			if (end == -1) {
-				// This is the next metadata key, so determine length
-				end = m->start;
+		if (start == -1) {
+			if (strcmp(clean, m->key) == 0) {
+				// We have a match (the first one, which is the one a query returns)
+				start = m->start;
 			}
+		} else if (end == -1) {
+			// This is the next metadata key, so determine length
+			end = m->start;
 		}
 	}
 
